@@ -108,3 +108,57 @@ def check_c11(prop, tier, seed):
 
 PLANS["C06"] = check_c06
 PLANS["C11"] = check_c11
+
+
+SCN = os.path.join(vlib.VERIF, "spec", "scenarios.json")
+
+
+def conc_jobs(tier, seed, extra=()):
+    """one harness job per (geometry, scenario): DFS with pre-emption bound + PCT schedules"""
+    geos = ["th4", "th1", "th2"] if tier == "quick" else ["th4", "th1", "th2", "th8", "16k"]
+    names = [s["name"] for s in json.load(open(SCN))]
+    jobs = []
+    for g in geos:
+        for nm in names:
+            a = ["conc", "scn=" + SCN, "name=" + nm, "seed=%d" % seed]
+            if tier == "quick":
+                a += ["bound=2", "limit=1500", "pct=100", "depth=3"]
+            else:
+                a += ["bound=3", "limit=40000", "pct=3000", "depth=4"]
+            jobs.append((g, a + list(extra)))
+    return geos, jobs
+
+
+def check_conc(prop, tier, seed):
+    """C01 / C03 (and the concurrent half of C04 / C13): every explored interleaving of the
+    scenario catalogue on the real code must be linearizable w.r.t. Abs (TraceAbs: Call/Lin/Ret)."""
+    res = Result(prop, tier, seed, "model_checking")
+    geos, jobs = conc_jobs(tier, seed)
+    vlib.build_all(geos)
+    outs = gen_and_validate(res, jobs, [prop], par=vlib.NCPU)
+    if prop in ("C04", "C13"):
+        gen_and_validate(res, seq_jobs(tier, seed, 0.6), [prop])
+    res.cov["schedules_validated"] = sum(o.get("segments", 0) for o in outs)
+    res.cov["rule"] = ("scenario catalogue spec/scenarios.json (race windows L1-L8 of the lower allocator, U1-U8 of the "
+                       "upper allocator) on geometries %s; the real code runs under a baton scheduler with one "
+                       "scheduling point per atomic access: depth-first enumeration of all schedules with <= %s "
+                       "pre-emptions plus seeded PCT schedules; every distinct observable execution (calls, results, "
+                       "final observation) is validated by TLC against TraceAbs (linearizability w.r.t. Abs, no panic, "
+                       "frees of held blocks succeed, quiescent accounting); distinct = distinct events incl. schedule"
+                       % (geos, "2" if tier == "quick" else "3"))
+    res.assumptions += ["sequentially consistent memory (the scheduler serialises the threads)",
+                        "threads are deterministic functions of the values they read"]
+    return res
+
+
+for p in ("C01", "C03"):
+    PLANS[p] = check_conc
+_seq_c04 = PLANS["C04"]
+
+
+def check_c04_c13(prop, tier, seed):
+    return check_conc(prop, tier, seed)
+
+
+PLANS["C04"] = check_c04_c13
+PLANS["C13"] = check_c04_c13
